@@ -149,6 +149,17 @@ def rule_wiring(ctx: Ctx):
     rep.floor("C15.events", "paths of add_event with a real id and transitions", n, 2)
 
 
+def _isinstance_kinds(p, val: str):
+    """Class-name sets T for which `isinstance(<val>, T)` was established true on this path."""
+    out = []
+    for b in p.of("branch"):
+        t = expand1(b.term, p.events)
+        if b.x["taken"] and isinstance(t, ast.Call) and show(t.func) == "isinstance" and len(t.args) == 2 and val in (show(t.args[0]), xshow(t.args[0], p.events)):
+            ts = t.args[1].elts if isinstance(t.args[1], ast.Tuple) else [t.args[1]]
+            out.append(frozenset(show(x).split(".")[-1] for x in ts))
+    return out
+
+
 def rule_attributes(ctx: Ctx):
     """C15.events: how each kind of class attribute becomes states/events (one dispatch per kind)."""
     rep = ctx.rep
@@ -169,25 +180,22 @@ def rule_attributes(ctx: Ctx):
         for b in p.of("branch"):
             facts[xshow(b.term, evs)] = b.x["taken"]
         calls = [e for e in p.calls() if isinstance(e.term.func, ast.Attribute) and show(e.term.func.value) == cls_]
-        kinds = [k_ for k_, v in facts.items() if v and k_.startswith("isinstance(")]
-        for k_ in kinds:
+        for k_ in _isinstance_kinds(p, val):
             seen.setdefault(k_, []).append([xshow(c.term, evs) for c in calls])
-    def has(kind_sub, pred):
-        for k_, lists in seen.items():
-            if kind_sub in k_:
-                return any(any(pred(c) for c in calls) for calls in lists)
-        return False
+
+    def has(kind, pred):
+        return any(any(pred(c) for c in calls) for calls in seen.get(kind, []))
     elem = None
     checks = [
-        ("States)", lambda c: "._add_states_from_dict(" in c, "a States collection registers each of its states"),
-        (", State)", lambda c: ".add_state(" in c and c.count("[0]") >= 1 and "[1])" in c, "a State attribute is registered under the attribute's name"),
-        ("(Transition, TransitionList))", lambda c: ".add_event(event=Event(transitions=" in c and "id=" in c and "name=" in c,
+        (frozenset({"States"}), lambda c: "._add_states_from_dict(" in c, "a States collection registers each of its states"),
+        (frozenset({"State"}), lambda c: ".add_state(" in c and c.count("[0]") >= 1 and "[1])" in c, "a State attribute is registered under the attribute's name"),
+        (frozenset({"Transition", "TransitionList"}), lambda c: ".add_event(event=Event(transitions=" in c and "id=" in c and "name=" in c,
          "a transition (list) attribute becomes an event named after the attribute, carrying those transitions"),
-        ("(Event,))", lambda c: ".add_event(event=Event(transitions=" in c and "._transitions" in c and "old_event=" in c and ".name" in c,
+        (frozenset({"Event"}), lambda c: ".add_event(event=Event(transitions=" in c and "._transitions" in c and "old_event=" in c and ".name" in c,
          "an explicit Event attribute is re-created under the attribute's name with its transitions and display name, and replaces the placeholder"),
     ]
     for sub, pred, what in checks:
-        rep.check(has(sub, pred), "C15.events", fn.loc(), what, fn.key, f"dispatch for `{sub}`: {[v[0] for k_, v in seen.items() if sub in k_][:1]}")
+        rep.check(has(sub, pred), "C15.events", fn.loc(), what, fn.key, f"dispatch for `{sorted(sub)}`: {seen.get(sub, [[]])[:1]}")
     rep.floor("C15.events", "attribute kinds dispatched by add_from_attributes", len(seen), 4)
     ur = ctx.fn("StateMachineMetaclass._update_event_references")
     ok_replace = ok_raise = False
@@ -481,9 +489,21 @@ def rule_enum(ctx: Ctx):
         rep.check(bool(ok_v), "C15.enum", fn.loc(), "the state value is the member or its value, by the flag", fn.key, f"value={show(val)}")
     # States(...) / items feed add_state like plain attributes
     afa = ctx.fn("StateMachineMetaclass.add_from_attributes")
-    src = " ".join(norm_stmt(n) for n in own_nodes(afa.node) if isinstance(n, ast.Expr))
-    rep.check("cls._add_states_from_dict(value)" in src and "cls.add_state(key, value)" in src, "C15.enum", afa.loc(),
-              "a States collection and individual State attributes are registered through the same add_state", afa.key, src[:200])
+    got = set()
+    for p in ctx.paths(afa, inline=None, exc_edges="none", unroll=1):
+        its = [e for e in p.events if e.kind == "iter" and e.x.get("loop") == "for"]
+        if not its:
+            continue
+        el = show(its[0].x["elem"])
+        kinds = _isinstance_kinds(p, f"{el}[1]")
+        for e in p.calls():
+            c = show(e.term)
+            if frozenset({"States"}) in kinds and c == f"{afa.params[0]}._add_states_from_dict({el}[1])":
+                got.add("States")
+            if frozenset({"State"}) in kinds and c == f"{afa.params[0]}.add_state({el}[0], {el}[1])":
+                got.add("State")
+    rep.check(got == {"States", "State"}, "C15.enum", afa.loc(),
+              "a States collection and individual State attributes are registered through the same add_state", afa.key, f"registered kinds: {sorted(got)}")
     sfd = ctx.fn("StateMachineMetaclass._add_states_from_dict")
     for p in ctx.paths(sfd, inline=None, exc_edges="none", unroll=1):
         calls = [e for e in p.calls() if show(e.term.func) == "cls.add_state"]
